@@ -46,6 +46,12 @@ impl Obj {
     }
     fn feed_via(&mut self, f: u8, buf: &mut [u8]) {
         let inp = buf.to_vec();
+        if matches!(f, 2 | 10 | 11) {
+            // separate output buffer: it must not matter what it held before the call
+            for (i, x) in buf.iter_mut().enumerate() {
+                *x = 0xA5 ^ (i as u8).wrapping_mul(7);
+            }
+        }
         match (self, f) {
             (Obj::Bm(b), 1) => b.one(Kind::InPlace, &[], buf),
             (Obj::Bm(b), 2) => b.one(Kind::B2b, &inp, buf),
@@ -61,6 +67,24 @@ impl Obj {
                 for (b, k) in buf.iter_mut().zip(&ks) {
                     *b ^= k;
                 }
+            }
+            (Obj::Bm(b), 10) => {
+                let _ = b.many(Kind::B2b, &inp, buf);
+            }
+            (Obj::Bm(b), 11) => {
+                let _ = b.many(Kind::InOut, &inp, buf);
+            }
+            (Obj::Bm(b), 12) => {
+                let _ = b.many(Kind::Alias, &[], buf);
+            }
+            (Obj::Core(c), 10) => {
+                let _ = c.apply_blocks(Kind::B2b, &inp, buf);
+            }
+            (Obj::Core(c), 11) => {
+                let _ = c.apply_blocks(Kind::InOut, &inp, buf);
+            }
+            (Obj::Core(c), 12) => {
+                let _ = c.apply_blocks(Kind::Alias, &[], buf);
             }
             // caller-supplied closure shapes: 5 -> 1, 6 -> 2, 7 -> 3 (in-place backend methods), 8 -> 4, 9 -> 6 (misaligned groups)
             (Obj::Bm(b), 5..=9) => b.many_closure(if f == 9 { 6 } else { f - 4 }, buf),
@@ -125,6 +149,9 @@ impl ResumeMachine<'_> {
             (true, 4) => Some(par + 1),
             (_, 5) | (_, 7) => Some(par),
             (_, 6) | (_, 8) | (_, 9) => Some(par + 1),
+            // the multi-block call in the other three kinds: b2b over exactly W blocks, two-buffer inout over W+1, one-buffer inout over W
+            (_, 10) | (_, 12) => Some(par),
+            (_, 11) => Some(par + 1),
             _ => None,
         }
     }
@@ -168,7 +195,7 @@ impl Machine for ResumeMachine<'_> {
                 v.push(Act::Feed(s));
             }
         }
-        for f in 1..=9u8 {
+        for f in 1..=12u8 {
             if let Some(n) = self.via_len(f) {
                 if used + n <= self.nmax {
                     v.push(Act::Via(f));
